@@ -26,7 +26,7 @@ m = dict(
     version=1,
     setup_cmd="make -C /verif setup",
     hooks=dict(guard="verif", enable="go build -tags verif (checks build their Go harnesses and kddp with it)",
-               baseline_off_cmd="cd /repo && GOFLAGS=-mod=mod GOPROXY=off go test -vet=off -count=1 ./src/...",
+               baseline_off_cmd="cd /repo && GOFLAGS=-mod=mod GOPROXY=off go test -vet=off -count=1 -json ./src/ast/... ./src/ddptypes/... ./src/parser/... ./src/scanner/...",
                source_commits=CLAIMS["_hooks"], add_only=True),
     engines=[dict(name="coq-proof+correspondence", path="/verif/coq + /verif/checks + /verif/extract + /verif/harness",
                   serves_properties=[c["property_id"] for c in checks],
